@@ -37,6 +37,29 @@ func runC15(c *Ctx) {
 	if mask.ok() {
 		c.checkMaskWindow(mask)
 	}
+	// every other index or slice expression of Mask that depends on the window: a slice taken
+	// with the unclamped window fails on an overhanging window instead of truncating it
+	L.Rule("window-index-safe", "every index or slice expression of Mask (tables indexed by a residue byte aside) is within bounds on every path: an overhanging window is truncated, it never reaches an index")
+	if mask.ok() {
+		lc := newLinCtx(c, mask.F)
+		c.checkIndexSafety(mask, "window-index-safe", lc, func(lc *linCtx, s indexSite) (string, bool) {
+			if !s.slice {
+				v := s.idx
+				for {
+					cv, ok := v.(*ssa.Convert)
+					if !ok {
+						break
+					}
+					v = cv.X
+				}
+				if b, ok := v.Type().Underlying().(*types.Basic); ok && b.Kind() == types.Uint8 {
+					return "", false // table indexed by a residue
+				}
+			}
+			return lc.siteName(s), true
+		})
+	}
+	L.Floor("window-index-safe", 2, "the row reads and the row store of the column loop")
 	L.Floor("mask-window", 1, "one store, three goals (floor = half of the instances on the pinned tree: a clean-up may merge instances, a rule that sees nothing must still fail)")
 
 	c.checkAlphabetConsts("alphabet-wildcard", c.helperDeclsOf("align", [2]string{"*align", "Mask"}, [2]string{"*align", "MaskOccurences"}))
